@@ -12,7 +12,8 @@ use crate::json::{self, J};
 use crate::rng::{run_seed, Rng};
 
 pub const DEFAULT_SEED: u64 = 20_261_001;
-const HANG_SECS: u64 = 20;
+/// a run that does not return within this many seconds is a hang (the interpreter is ~1000x slower)
+const HANG_SECS: u64 = if cfg!(miri) { 7200 } else { 20 };
 
 pub struct RunCfg {
     pub tier: Tier,
